@@ -75,6 +75,9 @@ def time_obj(t):
         return a
     if k == "npint_arr":
         return a.astype(np.int64)
+    if k == "sparse":
+        import scipy.sparse as sp
+        return sp.csr_matrix(a)            # densified by validate_array like any other sparse input
     if k == "jax":
         return jnp.asarray(a)
     if k == "list":
@@ -103,7 +106,7 @@ def time_token(t):
         return "TI %d" % int(t["data"][0])
     if k in ("float", "npfloat"):
         return "TF " + fbit(t["data"][0])
-    tag = "TA" if k in ("np", "npint_arr", "jax") else "TL"
+    tag = "TA" if k in ("np", "npint_arr", "jax", "sparse") else "TL"
     return f"{tag} {shape_tokens(t['shape'])} {data_tokens(t['data'])}"
 
 
@@ -268,7 +271,8 @@ def time_forms(rng, n, valid_only=False, scalars=True):
     out += [("np(n,)", tdesc("np", [n], col)), ("jax(n,)", tdesc("jax", [n], col)), ("np(n,1)", tdesc("np", [n, 1], col)),
             ("jax(n,1)", tdesc("jax", [n, 1], col)), ("list(n)", tdesc("list", [n], col)), ("tuple(n)", tdesc("tuple", [n], col)),
             ("nested(n,1)", tdesc("list", [n, 1], col)), ("npint(n,)", tdesc("npint_arr", [n], icol)),
-            ("listint(n)", tdesc("list_int", [n], icol))]
+            ("listint(n)", tdesc("list_int", [n], icol)),
+            ("sparse(n,1)", tdesc("sparse", [n, 1], col + 0.25))]
     if not valid_only:
         for k in sorted({0, n - 1, n + 1, 2 * n}):
             if k == n:
@@ -402,7 +406,7 @@ def case_pred(ctx, res, p):
         flag0 = ("T" if diag else "F") if meth in COVM else "-"
         M0 = np.ascontiguousarray(np.asarray(x["data"], float))
         _REF.setdefault((pkey, routine0, flag0, M0.shape, M0.tobytes(), jit), out[1])
-    form = t["kind"] + (str(tuple(t["shape"])) if t["kind"] in ("np", "jax", "list", "tuple", "npint_arr", "list_int") else "")
+    form = t["kind"] + (str(tuple(t["shape"])) if t["kind"] in ("np", "jax", "list", "tuple", "npint_arr", "list_int", "sparse") else "")
     mform = "none" if multi is None else multi["kind"] + str(tuple(multi["shape"]))
     res.count("pred cls=" + cls)
     res.count("pred meth=" + meth)
